@@ -99,7 +99,7 @@ def run(chk, tier):
     wd = vlib.scratch("c02")
     chosen, total = configs(chk, tier)
     nprog = 16 if tier == "quick" else 60
-    progs = progen.generate((chk.seed + 13) % 1000003, nprog) + fixedprogs.fixed_regressions()
+    progs = progen.generate((chk.seed + 13) % 1000003, nprog) + fixedprogs.fixed_regressions() + fixedprogs.findings_opt()
     fam = progcheck.Family(chk, progs, "gen", workers=vlib.NCPU, timeout=1500)
     routes = [("interp " + " ".join(c["opts"]), "interp", None, tuple(c["opts"])) for c in chosen]
     # the C route for the plain levels (the optimised FOAM also goes through the C generator)
